@@ -39,6 +39,12 @@ func main() {
 	r := ev.New("C16", "model_checking")
 
 	if r.Replay != "" {
+		var sr sessReplay
+		r.LoadReplay(&sr)
+		if sr.Part == "sessions" {
+			sessionPart(r)
+			r.Finish()
+		}
 		var c caseT
 		r.LoadReplay(&c)
 		sqlgen.Install(c.Dialect)
@@ -77,13 +83,14 @@ func main() {
 	}
 	sqlgen.RunWorkers(r, scratch, workers, common)
 	os.RemoveAll(scratch)
+	sessionPart(r)
 
 	r.Rule("state = one distinct statement text in one dialect configuration (mysql, mysql-ansi, postgresql): every literal template (one per literal position named in the property: select list, conditions, IN lists, BETWEEN, LIKE, function arguments, VALUES rows, SET clauses, LIMIT/OFFSET, HAVING, sub-selects, unions, plus RETURNING / UPDATE..FROM / DELETE) and every (statement context x expression form) of the sqlgen grammar with literal operands, with a unique marker at each literal position in turn in every spelling (single-quoted, E'..' (PostgreSQL), \"..\" (MySQL), integer, decimal, exponent, negative) and at every pair of positions (templates: every pair of spellings; grammar forms: same spelling), other positions holding a neutral literal; thorough adds every chain of two core forms with the marker innermost; plus unparsable statements carrying markers. transition = one call of a redaction entry point or of AcraCensor.HandleQuery under one (censor configuration, log level); trace = one statement taken through all entry points and configurations. distinct_nontrivial = distinct (dialect, statement family, literal position, spelling, outcome) tuples")
 	r.Set("censor_configurations", configNames())
 	r.Set("log_levels", []string{"debug", "info"})
 	r.Set("redaction_entry_points", []string{"sqlparser.RedactSQLQuery", "Parser{strict}.HandleRawSQLQuery", "Parser{default}.HandleRawSQLQuery"})
 	r.Assume("log level is the logrus level only; acra-server -d additionally switches the tokenizer and yacc error messages to verbose mode, which quote the offending token by design (SetTokenizerVerbosity) - that mode is not modelled",
-		"the proxies (decryptor/mysql, decryptor/postgresql) log exactly the second result of Parser.HandleRawSQLQuery (field sql) and whatever AcraCensor.HandleQuery logs; full proxy sessions are not run here",
+		"proxy sessions (sessions.go) run a menu of statements, not the literal space of the workers: for the literal space the proxies are taken to log exactly the second result of Parser.HandleRawSQLQuery (field sql) and whatever AcraCensor.HandleQuery logs",
 		"hex and bit literals are not in the property's list of spellings and are not generated",
 		"a marker is recognised by its core (zqjmarker, 98765, 9.8765), searched case-insensitively in every redacted string, every log message, every log field value and every formatted log line")
 	r.Finish()
